@@ -48,7 +48,10 @@ def run_check(pid, repo):
 def git_apply(repo, patch):
     r = subprocess.run(["git", "apply", "--unsafe-paths", "--directory", repo, patch], cwd="/", stdout=subprocess.PIPE, stderr=subprocess.STDOUT, text=True)
     if r.returncode != 0:
-        r = subprocess.run(["patch", "-p1", "-d", repo, "-i", patch, "--quiet"], stdout=subprocess.PIPE, stderr=subprocess.STDOUT, text=True)
+        # `patch` accepts fuzz where `git apply` does not, but it is not atomic: try it dry first, so that a patch that does not fit leaves the copy untouched
+        r = subprocess.run(["patch", "-p1", "-d", repo, "-i", patch, "--quiet", "--dry-run"], stdout=subprocess.PIPE, stderr=subprocess.STDOUT, text=True)
+        if r.returncode == 0:
+            r = subprocess.run(["patch", "-p1", "-d", repo, "-i", patch, "--quiet"], stdout=subprocess.PIPE, stderr=subprocess.STDOUT, text=True)
     return r.returncode == 0, r.stdout
 
 
